@@ -54,6 +54,7 @@ type obs struct {
 	scopes    map[string]app.Scope
 	isoDone   bool
 	done      bool
+	tasks     map[string][]string // accepted task bodies per scope
 	injected  map[string]bool // scopes that received an error (task or listener) before their wait could end
 }
 
@@ -116,14 +117,21 @@ func build(sp Spec, o *obs) func() {
 		var wg vsched.WaitGroup
 		started := map[string]bool{}
 		// tasks
+		// all tasks are registered before any of them runs (a task that ends the context first would
+		// make the registration of the next one fail); only accepted tasks count for the oracle
+		o.tasks = map[string][]string{}
+		for _, n := range sp.Scopes {
+			for _, body := range sp.Tasks[n] {
+				if err := o.scopes[n].AddTasks(1); err == nil {
+					o.tasks[n] = append(o.tasks[n], body)
+				}
+			}
+		}
 		for _, n := range sp.Scopes {
 			n := n
 			s := o.scopes[n]
-			for _, body := range sp.Tasks[n] {
+			for _, body := range o.tasks[n] {
 				body := body
-				if err := s.AddTasks(1); err != nil {
-					continue
-				}
 				wg.Add(1)
 				vsched.Spawn(func() {
 					defer wg.Done()
@@ -139,6 +147,13 @@ func build(sp Spec, o *obs) func() {
 						s.Kill()
 					case "stop":
 						s.Stop()
+					case "stop-kill":
+						// a graceful stop followed by a kill: the kill must still be recorded
+						s.Stop()
+						s.Kill()
+					case "stop-err":
+						s.Stop()
+						s.AppendError(errTask)
 					case "yield":
 						vsched.Point("task-yield")
 					}
@@ -221,8 +236,8 @@ func judge(sp Spec, o *obs) func(x *explore.Exec) *explore.Verdict {
 		anyErr := map[string]bool{}
 		lateErr := map[string]bool{} // a listener of this scope's own close events returns an error
 		for _, n := range sp.Scopes {
-			for _, b := range sp.Tasks[n] {
-				if b == "err" || b == "kill" {
+			for _, b := range o.tasks[n] {
+				if isErrBody(b) {
 					for _, m := range sp.Scopes {
 						// an error in n reaches every scope sharing its context; it precedes the wait end of
 						// n itself and of n's ancestors (they wait for n's close)
@@ -348,8 +363,8 @@ func judge(sp Spec, o *obs) func(x *explore.Exec) *explore.Verdict {
 		// shared vs isolated failure
 		if _, ok := o.scopes["I"]; ok {
 			iErr := false
-			for _, b := range sp.Tasks["I"] {
-				if b == "err" || b == "kill" {
+			for _, b := range o.tasks["I"] {
+				if isErrBody(b) {
 					iErr = true
 				}
 			}
@@ -358,8 +373,8 @@ func judge(sp Spec, o *obs) func(x *explore.Exec) *explore.Verdict {
 				if n == "I" {
 					continue
 				}
-				for _, b := range sp.Tasks[n] {
-					if b == "err" || b == "kill" {
+				for _, b := range o.tasks[n] {
+					if isErrBody(b) {
 						othersErr = true
 					}
 				}
@@ -373,8 +388,8 @@ func judge(sp Spec, o *obs) func(x *explore.Exec) *explore.Verdict {
 				return v("isolated-child-failed-parent", "a child with an isolated context fails alone", "root holds %d errors although only the isolated child failed", o.errsAtEnd["R"])
 			}
 			rootEnds := false
-			for _, b := range sp.Tasks["R"] {
-				if b == "stop" || b == "kill" || b == "err" {
+			for _, b := range o.tasks["R"] {
+				if b == "stop" || isErrBody(b) {
 					rootEnds = true
 				}
 			}
@@ -385,8 +400,8 @@ func judge(sp Spec, o *obs) func(x *explore.Exec) *explore.Verdict {
 		if _, ok := o.scopes["C"]; ok {
 			cErr := false
 			for _, n := range []string{"C", "G"} {
-				for _, b := range sp.Tasks[n] {
-					if b == "err" || b == "kill" {
+				for _, b := range o.tasks[n] {
+					if isErrBody(b) {
 						cErr = true
 					}
 				}
@@ -428,6 +443,11 @@ func renderLog(l []logEntry) string {
 	return strings.Join(s, " ")
 }
 
+// isErrBody: the task body leaves an error in its scope's context.
+func isErrBody(b string) bool {
+	return b == "err" || b == "kill" || b == "stop-kill" || b == "stop-err"
+}
+
 func programs(thorough bool) []Spec {
 	b := 1
 	if thorough {
@@ -452,6 +472,14 @@ func programs(thorough bool) []Spec {
 		}
 		// two tasks in one scope
 		ps = append(ps, Spec{Scopes: t, Tasks: map[string][]string{last: {"err", "yield"}}, Bound: b})
+		// failure signalled on a context that has already been stopped gracefully (same task, another
+		// task of the scope, a task of the root)
+		ps = append(ps, Spec{Scopes: t, Tasks: map[string][]string{last: {"stop-kill"}}, Bound: b},
+			Spec{Scopes: t, Tasks: map[string][]string{last: {"stop-err"}}, Bound: b},
+			Spec{Scopes: t, Tasks: map[string][]string{last: {"stop", "kill"}}, Bound: b})
+		if len(t) > 1 {
+			ps = append(ps, Spec{Scopes: t, Tasks: map[string][]string{"R": {"stop"}, last: {"stop-kill"}}, Bound: b})
+		}
 		// failing listeners
 		for _, ev := range []string{"BeforeClose", "BeforeCommit", "Commit", "Rollback", "AfterClose"} {
 			tasks := map[string][]string{last: {"yield"}}
@@ -517,7 +545,7 @@ func replay(wj json.RawMessage) (*fw.Violation, error) {
 
 func init() {
 	fw.Register(&fw.Check{ID: "C11", Level: "model_checking",
-		Rule: "programs = scope tree {root; +shared child; +isolated child; +child+grandchild; +shared+isolated} x task bodies {none, AppendError, Kill, Stop, yield} in the deepest scope / the root / two per scope x a listener returning an error on {BeforeClose, BeforeCommit, Commit, Rollback, AfterClose} x tasks that report their failure only after the closer is inside Close; one closer thread per scope, one thread per task, recorders on all 11 events on the root (twice) and on every child; every schedule with <= bound preemptions; oracle on the global-step event log as described in DESIGN.md 3/C11. states = distinct schedule traces",
+		Rule: "programs = scope tree {root; +shared child; +isolated child; +child+grandchild; +shared+isolated} x task bodies {none, AppendError, Kill, Stop, yield, Stop-then-Kill, Stop-then-AppendError} in the deepest scope / the root / two per scope x a listener returning an error on {BeforeClose, BeforeCommit, Commit, Rollback, AfterClose} x tasks that report their failure only after the closer is inside Close; one closer thread per scope, one thread per task, recorders on all 11 events on the root (twice) and on every child; every schedule with <= bound preemptions; oracle on the global-step event log as described in DESIGN.md 3/C11. states = distinct schedule traces",
 		Run: run, Replay: replay,
 		Assumptions: []string{"commit/rollback is only judged when the error source is ordered before (or there is no error source at all for) the scope's wait end", "preemption bounds as reported; 1-2 tasks per scope, depth <= 3"}})
 }
